@@ -3,34 +3,9 @@ import FeatherModel.Model.Remapper
 /-!
 # C06 — specification helpers evaluated by the driver (oracle domains) and used by `Thm/C06.lean`
 
-* `dfsAll`: pre-order of the *provider's* graph from a class (super types in declaration order, recursively), whether or
-  not the classes have a mapping. This is the order the property text speaks about ("nearest declaring super type in
-  declaration order"); `Remapper.dfs` is the order the code really follows (it stops at classes without a mapping).
 * `accepts`: the three-state automaton of the strings `map_desc` does not reject:
   `( non-L | L non-; non-;* ; )*`.
 -/
-
-namespace Remapper
-
-/-- pre-order of the provider's graph from `o`; a class reachable along two paths is listed twice. `none` = out of fuel
-(only with a cyclic provider when `fuel > number of provider rows`). -/
-def dfsAll (sup : Supers) : Nat → JStr → Option (List JStr)
-  | 0, _ => none
-  | fuel + 1, o =>
-    match AList.lookup o sup with
-    | none => some [o]
-    | some ss =>
-      match concatM (fun s => dfsAll sup fuel s) ss with
-      | none => none
-      | some l => some (o :: l)
-
-/-- fuel that suffices for `dfsAll` on an acyclic provider: every class on a path except the last one is a row -/
-def allFuel (sup : Supers) : Nat := sup.length + 1
-
-/-- every class of the list has a table in the B remapper (= has both names in some row) -/
-def allMapped (r : BTable) (l : List JStr) : Bool := l.all fun c => (AList.lookup c r).isSome
-
-end Remapper
 
 namespace MapDesc
 
